@@ -310,8 +310,49 @@ Fixpoint bools_eqb (a b : list bool) : bool :=
    per cluster name None (absent) or (lb type, addresses) *)
 Definition router_obs := (string * list (request * option string * list string))%type.
 Definition cluster_obs := (string * option (nat * list host))%type.
-(* operations, per-operation results, live observations, and the same observations on objects rebuilt from the dump *)
-Definition up_case := (list op * list bool * list router_obs * list cluster_obs * list router_obs * list cluster_obs)%type.
+(* after EVERY operation, for the object it addresses: a fingerprint of the live object, of the configuration the wrapper
+   keeps, and of the dumped configuration.
+     router:  [0 absent | 1 routers nil | 2 routers present; virtual hosts, routes of the wrapper's configuration;
+               0 | 1 in the dump; virtual hosts, routes of the dumped configuration]
+     cluster: [0 | 1 live; lb; hosts; 0 | 1 in the dump; lb; hosts] *)
+Definition count_routes (c : config) : nat := fold_right (fun v n => List.length (vh_routes v) + n) 0 c.
+Definition router_fp (s : state) (name : string) : list nat :=
+  match mget name (st_routers s) with
+  | None => [0; 0; 0; 0; 0; 0]
+  | Some w => [match rw_live w with None => 1 | Some _ => 2 end; List.length (rw_stored w); count_routes (rw_stored w);
+               1; List.length (rw_stored w); count_routes (rw_stored w)]
+  end.
+Definition cluster_fp (s : state) (name : string) : list nat :=
+  (match mget name (st_clusters s) with None => [0; 0; 0] | Some c => [1; cl_lb c; List.length (cl_hosts c)] end ++
+   match mget name (st_cfg_clusters s) with None => [0; 0; 0] | Some c => [1; cl_lb c; List.length (cl_hosts c)] end)%list.
+Definition fingerprint (s : state) (o : op) : list nat :=
+  match o with
+  | OAddOrUpdateRouters name _ | OAddRoute name _ _ | ORemoveAllRoutes name _ => router_fp s name
+  | OAddOrUpdateCluster name _ _ | OAddOrUpdateClusterAndHosts name _ _ _ | OUpdateHosts name _ | OAppendHosts name _
+  | ORemoveHosts name _ | OEndpoints name _ => cluster_fp s name
+  | ORemoveClusters names => match names with n :: _ => cluster_fp s n | [] => [] end
+  end.
+Fixpoint run_fp (per_locality : bool) (s : state) (ops : list op) : list (list nat) :=
+  match ops with
+  | [] => []
+  | o :: ops' => let s1 := fst (step per_locality s o) in fingerprint s1 o :: run_fp per_locality s1 ops'
+  end.
+Fixpoint nats_eqb (a b : list nat) : bool :=
+  match a, b with
+  | [], [] => true
+  | x :: a', y :: b' => andb (Nat.eqb x y) (nats_eqb a' b')
+  | _, _ => false
+  end.
+Fixpoint fps_eqb (a b : list (list nat)) : bool :=
+  match a, b with
+  | [], [] => true
+  | x :: a', y :: b' => andb (nats_eqb x y) (fps_eqb a' b')
+  | _, _ => false
+  end.
+
+(* operations, per-operation results, per-operation fingerprints, live observations, and the same observations on objects
+   rebuilt from the dump *)
+Definition up_case := (list op * list bool * list (list nat) * list router_obs * list cluster_obs * list router_obs * list cluster_obs)%type.
 
 Definition router_obs_ok_with (live : option live_router) (ls : list (request * option string * list string)) : bool :=
   forallb (fun x => match x with
@@ -338,13 +379,14 @@ Definition cluster_obs_ok_in (m : list (string * cluster)) (o : cluster_obs) : b
 
 Definition up_case_ok (per_locality : bool) (k : up_case) : bool :=
   match k with
-  | (ops, results, robs, cobs, rdump, cdump) =>
+  | (ops, results, fps, robs, cobs, rdump, cdump) =>
       let (s, rs) := run per_locality init_state ops in
       andb (bools_eqb rs results)
+      (andb (fps_eqb (run_fp per_locality init_state ops) fps)
       (andb (forallb (router_obs_ok s) robs)
       (andb (forallb (cluster_obs_ok_in (st_clusters s)) cobs)
       (andb (forallb (router_dump_ok s) rdump)
-            (forallb (cluster_obs_ok_in (st_cfg_clusters s)) cdump))))
+            (forallb (cluster_obs_ok_in (st_cfg_clusters s)) cdump)))))
   end.
 
 Fixpoint up_mismatches_from (pl : bool) (i : nat) (l : list up_case) : list nat :=
